@@ -446,7 +446,9 @@ def job_float_long(label):
 
 
 def _float_long_cases(label):
-    return [{"kind": "float-long", "label": label, "case": c} for c in ("onehot-K2-n96", "onehot-K3-n96", "onehot-K3-n96-empty-middle", "constant-K3-n1500", "soft-K2-n1500")]
+    return [{"kind": "float-long", "label": label, "case": c} for c in ("onehot-K2-n96", "onehot-K3-n96", "onehot-K3-n96-empty-middle", "constant-K3-n1500", "soft-K2-n1500",
+                                                                          # one-hot rows as they are often built (np.eye(K, dtype=int)[labels], labels[:, None] == arange(K)): the storage type must not matter
+                                                                          "onehot-K3-n96-stored-int64", "onehot-K3-n96-stored-int32", "onehot-K3-n96-stored-bool")]
 
 
 def _float_long_run(rep, verbose):
@@ -479,6 +481,14 @@ def _float_long_run(rep, verbose):
             tgt = 0.5 if gk == "chi2" else 0.0
             bad = abs(S0 - tgt) > 1e-7
             why = f"score {S0} at independence"
+        if not bad and "stored" in case:
+            Pt = P.astype(case.split("stored-")[1])
+            St, Gt = gem.evaluate(Pt.copy(), A, return_grad=True)
+            St0 = gem.evaluate(Pt.copy(), A)
+            Gt = np.asarray(Gt, dtype=float)
+            bad = not (np.isfinite(St) and np.all(np.isfinite(Gt)) and abs(float(St) - S0) <= 1e-9 * (1 + abs(S0)) and abs(float(St0) - S0) <= 1e-9 * (1 + abs(S0))
+                       and Gt.shape == np.asarray(G).shape and np.allclose(Gt, np.asarray(G, dtype=float), rtol=1e-9, atol=1e-12))
+            why = f"score {S0} with float64 storage, {St} / {St0} with {Pt.dtype} storage"
         if not bad and "empty" in case:
             P2 = np.insert(P, 1, 0.0, axis=1)
             S2, G2 = gem.evaluate(P2.copy(), A, return_grad=True)
